@@ -36,4 +36,16 @@ def placeholderRecord (ex : Exec) : Record :=
 def OptionsWithDepth (opts : List Int) (d : Int) : Prop :=
   opts.length = 9 ∧ opts[1]? = some d
 
+/-- the documented depth of a derived logger: that of the last `opt(depth=…)` of the history (`bind` and `patch`
+keep it; every `opt()` call sets it anew), `d0` when the history has no `opt` -/
+def specDepth : List Deriv → Int → Int
+  | [], d0 => d0
+  | .bind :: xs, d0 => specDepth xs d0
+  | .patch :: xs, d0 => specDepth xs d0
+  | .opt d _ :: xs, _ => specDepth xs d
+
+/-- every `opt` step of the history leaves `opt()` through one of the return paths the source has -/
+def PathsOfSource (ds : List Deriv) : Prop :=
+  ∀ d fwd, Deriv.opt d fwd ∈ ds → fwd ∈ Gen.optPaths.map (·.2)
+
 end Frames.Spec
